@@ -15,8 +15,26 @@ def main(argv=None):
     ap.add_argument("--replay", default=None)
     ap.add_argument("--seed", type=int, default=None)
     a = ap.parse_args(argv)
-    if os.environ.get("PYTHONHASHSEED") != "0":
-        os.environ["PYTHONHASHSEED"] = "0"
+    # claripy's behaviour depends on Python's hash seed in places (iteration order of sets of variable names and solvers):
+    # the hash seed is part of what VERIF_SEED selects -- VERIF_SEED=1 (the default) runs under hash seed 0, VERIF_SEED=n under
+    # n-1 -- and a replay file records the one it was found under
+    want = None
+    if a.replay:
+        try:
+            import json
+
+            with open(a.replay) as f:
+                want = json.load(f).get("hashseed")
+        except (OSError, ValueError):
+            want = None
+    if want is None:
+        try:
+            vs = a.seed if a.seed is not None else int(os.environ.get("VERIF_SEED", "1"))
+        except ValueError:
+            vs = 1
+        want = (vs - 1) % 4294967296
+    if os.environ.get("PYTHONHASHSEED") != str(want):
+        os.environ["PYTHONHASHSEED"] = str(want)
         os.execv(sys.executable, [sys.executable, "-B", "-m", "vk.main", *(argv or sys.argv[1:])])
     try:
         from vk import env, runner
